@@ -8,7 +8,7 @@ from tartiflette import Resolver, TypeResolver, Scalar, Directive, Subscription
 from tartiflette.schema.registry import SchemaRegistry
 
 META = {
-    "bounds": "4 schema/implementation bundles (one bare: no subscription source, no type resolver) with identical type and field names (per-field type_resolver, @TypeResolver, default type resolution; scalar, directive, "
+    "bounds": "5 schema/implementation bundles (one bare: no subscription source, no type resolver; one bringing its own implementation of the built-in scalar Time) with identical type and field names (per-field type_resolver, @TypeResolver, default type resolution; scalar, directive, "
               "subscription, resolvers that differ per bundle), all subsets of 2-3 of the first three bundles + the bare one next to a full one, x every registration order x every cooking order, + 3 pairings of the unnamed \"default\" schema with a named one x 4 orders (engine builds concrete, at import); "
               "registry lookups with a symbolic schema name (all strings) against concretely registered names",
     "outside": "more than 3 bundles; schema names are concrete when objects are registered (registering under a symbolic name inserts it in a dict, which realises it)",
@@ -24,12 +24,17 @@ directive @dd on FIELD_DEFINITION
 directive @oo on OBJECT | INTERFACE | UNION | ENUM
 extend type Cat @oo
 extend interface Pet @oo
-type Query { pet: Pet u: U pets: [Pet] item: Sc v: Int @dd echo(x: Sc): Sc }
+type Query { pet: Pet u: U pets: [Pet] item: Sc v: Int @dd echo(x: Sc): Sc now: Time }
 type Subscription { s: Int }
 """
+def sdl_of(i):
+    """bundle 5 brings its OWN implementation of the built-in scalar Time (a documented feature: declare it in the SDL and register it under that schema name)"""
+    return SDL + ("scalar Time\n" if i == 5 else "")
+
+
 REQUESTS = [
     "{ pet { __typename name ... on Cat { lives } } }", "{ u { __typename ... on Cat { name } ... on Dog { name } } }", "{ pets { __typename name } }",
-    "{ item v }", "query Q($x: Sc) { echo(x: $x) }", "{ echo(x: 5) }",
+    "{ item v }", "query Q($x: Sc) { echo(x: $x) }", "{ echo(x: 5) }", "{ now }",
 ]
 SUB = "subscription { s }"
 
@@ -92,6 +97,23 @@ def _register(i, SN):
     async def v(parent, args, ctx, info):
         return i
 
+    @Resolver("Query.now", **SN)
+    async def now(parent, args, ctx, info):
+        import datetime
+        return datetime.datetime(2020, 1, 2, 1, 2, 3)
+
+    if i == 5:
+        class OwnTime:
+            def coerce_output(self, v):
+                return "T5"
+
+            def coerce_input(self, v):
+                return v
+
+            def parse_literal(self, ast):
+                return None
+        Scalar("Time", **SN)(OwnTime)
+
     @Resolver("Query.echo", **SN)
     async def echo(parent, args, ctx, info):
         return args.get("x")
@@ -119,12 +141,13 @@ def probe(eng, x):
 
 def oracle(i, x):
     """what bundle i answers when built alone — written from the bundle definitions above (independent of the engine and of process-wide state)"""
-    pet = {1: {"__typename": "Cat", "name": "liar1", "lives": 9}, 2: {"__typename": "Dog", "name": "liar2"}, 3: {"__typename": "Dog", "name": "liar3"}, 4: {"__typename": "Dog", "name": "liar4"}}[i]
+    pet = {1: {"__typename": "Cat", "name": "liar1", "lives": 9}, 2: {"__typename": "Dog", "name": "liar2"}, 3: {"__typename": "Dog", "name": "liar3"}, 4: {"__typename": "Dog", "name": "liar4"},
+           5: {"__typename": "Dog", "name": "liar5"}}[i]
     u = {"__typename": "Dog", "name": "dog%d" % i} if i != 3 else {"__typename": "Cat", "name": "cat3"}
     pets = [{"__typename": "Dog", "name": "liar%d" % i}, {"__typename": "Dog", "name": "dog%d" % i}]
     echo = None if x is None else (x * 100 + i) * 10 + i
     return [{"data": {"pet": pet}}, {"data": {"u": u}}, {"data": {"pets": pets}}, {"data": {"item": 70 + i, "v": i + 100 * i}}, {"data": {"echo": echo}},
-            {"data": {"echo": (5000 + i) * 10 + i}}, [{"data": {"s": i}}, {"data": {"s": 10 * i}}] if i != 4 else NO_SOURCE]
+            {"data": {"echo": (5000 + i) * 10 + i}}, {"data": {"now": "01:02:03" if i != 5 else "T5"}}, [{"data": {"s": i}}, {"data": {"s": 10 * i}}] if i != 4 else NO_SOURCE]
 
 
 NO_SOURCE = ["raised Exception"]      # "Can't execute a subscription query on a field which doesn't provide a source event stream"
@@ -134,7 +157,7 @@ def _fresh_process_alone(i):
     """the bundle built alone in a FRESH PROCESS (the property's reference), compared with the oracle for x = 3"""
     import subprocess, sys, json, os
     code = ("import sys, json; sys.argv=['x']; import os; os.environ['VF_C17_CHILD']='1'; sys.path.insert(0, %r); "
-            "from vf import env; import harness.C17 as H; H.register(%d, 'fresh'); e = env.build(H.SDL, 'fresh'); print('@@' + json.dumps(H.probe(e, 3)))" % (env.VERIF, i))
+            "from vf import env; import harness.C17 as H; H.register(%d, 'fresh'); e = env.build(H.sdl_of(%d), 'fresh'); print('@@' + json.dumps(H.probe(e, 3)))" % (env.VERIF, i, i))
     p = subprocess.run([sys.executable, "-c", code], capture_output=True, text=True, env=dict(os.environ, VF_C17_CHILD="1"), timeout=120)
     for line in p.stdout.splitlines():
         if line.startswith("@@"):
@@ -147,16 +170,16 @@ CHILD = _os.environ.get("VF_C17_CHILD") == "1"
 # ---- references: each bundle built alone in a clean registry ------------------------------------------------------
 ALONE = {}
 FRESH_ALONE = {}
-for _i in (() if CHILD else (1, 2, 3, 4)):
+for _i in (() if CHILD else (1, 2, 3, 4, 5)):
     FRESH_ALONE[_i] = _fresh_process_alone(_i)
     SchemaRegistry.clean()
     register(_i, "alone_%d" % _i)
-    ALONE[_i] = build(SDL, "alone_%d" % _i, query_cache_decorator=DictCache())
+    ALONE[_i] = build(sdl_of(_i), "alone_%d" % _i, query_cache_decorator=DictCache())
 # ---- co-resident: every subset (>= 2), registration order and cooking order ----------------------------------------
 SchemaRegistry.clean()
 COMBOS = []
 ENG = {}
-for _sub in (() if CHILD else ([1, 2], [1, 3], [2, 3], [1, 2, 3], [2, 4])):
+for _sub in (() if CHILD else ([1, 2], [1, 3], [2, 3], [1, 2, 3], [2, 4], [5, 2], [5, 4, 1])):
     for _reg in itertools.permutations(_sub):
         for _cook in itertools.permutations(_sub):
             _c = len(COMBOS)
@@ -164,13 +187,13 @@ for _sub in (() if CHILD else ([1, 2], [1, 3], [2, 3], [1, 2, 3], [2, 4])):
             for _i in _reg:
                 register(_i, "co_%d_%d" % (_c, _i))
             for _i in _cook:
-                ENG[(_c, _i)] = build(SDL, "co_%d_%d" % (_c, _i), query_cache_decorator=DictCache())
+                ENG[(_c, _i)] = build(sdl_of(_i), "co_%d_%d" % (_c, _i), query_cache_decorator=DictCache())
 # the unnamed ("default") schema next to named ones, both orders
 DEFAULT_SCEN = []
 if not CHILD:
     # (bundle under "default", bundle under a name, registration order, cooking order); the bare bundle 4 next to a default bundle that has a
     # subscription source and a @TypeResolver is the interesting pairing: nothing of "default" may fill the gaps of the named schema
-    for _bd, _bn in ((3, 1), (2, 4), (4, 2)):
+    for _bd, _bn in ((3, 1), (2, 4), (4, 2), (5, 2)):
         for _reg in (("default", "named"), ("named", "default")):
             for _cook in (("default", "named"), ("named", "default")):
                 _c = len(COMBOS)
@@ -183,9 +206,9 @@ if not CHILD:
                         register(_bn, "co_%d_%d" % (_c, _bn))
                 for _who in _cook:
                     if _who == "default":
-                        ENG[(_c, _bd)] = env.build(SDL, None, query_cache_decorator=DictCache())
+                        ENG[(_c, _bd)] = env.build(sdl_of(_bd), None, query_cache_decorator=DictCache())
                     else:
-                        ENG[(_c, _bn)] = build(SDL, "co_%d_%d" % (_c, _bn), query_cache_decorator=DictCache())
+                        ENG[(_c, _bn)] = build(sdl_of(_bn), "co_%d_%d" % (_c, _bn), query_cache_decorator=DictCache())
 for _e in list(ALONE.values()) + list(ENG.values()):
     probe(_e, 1)
 
@@ -212,13 +235,13 @@ def c17_coresident(c: int, b: int, x: Optional[int]) -> bool:
     return verdict(ok and got == ref)
 
 
-@obligation(tier="quick", timeout=60, samples=[{"i": 0}, {"i": 2}], selectors=["i: bundle"], bounds="4 bundles",
+@obligation(tier="quick", timeout=60, samples=[{"i": 0}, {"i": 2}], selectors=["i: bundle"], bounds="5 bundles",
             note="reference validity: each bundle built alone in a fresh process (and alone after SchemaRegistry.clean() in this process) answers exactly what the oracle says")
 def c17_alone(i: int) -> bool:
     """
     post: _
     """
-    i = 1 + pick(i, 4)
+    i = 1 + pick(i, 5)
     ok, here = safe(lambda: probe(ALONE[i], 3))
     observe(FRESH_ALONE[i], here, oracle(i, 3))
     return verdict(ok and FRESH_ALONE[i] == oracle(i, 3) and here == oracle(i, 3))
